@@ -36,7 +36,7 @@ func (m *Model) directiveTable() (map[string]int64, string) {
 				return true
 			}
 			for i, name := range vs.Names {
-				if name.Name != "directives" || i >= len(vs.Values) {
+				if canonVarName("token", name.Name) != "directives" || i >= len(vs.Values) {
 					continue
 				}
 				cl, ok := vs.Values[i].(*ast.CompositeLit)
